@@ -14,7 +14,7 @@ namespace Xp.C06
 /-- what the controller may conclude from a reply, in the state right after the call -/
 def RF (s : St) : Req → Resp → Prop
   | .getClaim _, resp => ∀ c, resp = .claim c → c ∈ s.hist
-  | .getXR n, resp => (resp = .err .notFound → s.xrs n = none) ∧ (∀ x, resp = .xr x → s.xrs n = some x)
+  | .getXR n _, resp => (resp = .err .notFound → none ∈ s.xhist n) ∧ (∀ x, resp = .xr x → some x ∈ s.xhist n)
   | .updClaim c, resp => ∀ c1, resp = .claim c1 → c1 ∈ s.hist ∧ c1.ref = c.ref
   | .updClaimStatus _, resp => ∀ c1, resp = .claim c1 → c1 ∈ s.hist
   | _, _ => True
@@ -36,15 +36,23 @@ theorem rf_exec {P0 : Name → Prop} {s : St} (hi : Inv P0 s) (r : Req) : RF (ex
         intro c' h; cases h
         exact cur_mem hi hc
       · intro c' h; cases h
-  | getXR n =>
+  | getXR n sel =>
+    have hmem : (match sel.bind (fun f => f ((s.xhist n).drop 1)) with
+                 | some ox => if ox ∈ (s.xhist n).drop 1 then ox else s.xrs n
+                 | none => s.xrs n) ∈ s.xhist n := by
+      split
+      · split
+        · rename_i h; exact List.mem_of_mem_drop h
+        · exact hi.xcur n
+      · exact hi.xcur n
     simp only [exec]
     split
     · rename_i x hx
       unfold RF
-      exact ⟨fun h => (by cases h), fun y h => (by cases h; exact hx)⟩
+      exact ⟨fun h => (by cases h), fun y h => (by cases h; rw [← hx]; exact hmem)⟩
     · rename_i hx
       unfold RF
-      exact ⟨fun _ => hx, fun y h => (by cases h)⟩
+      exact ⟨fun _ => (by rw [← hx]; exact hmem), fun y h => (by cases h)⟩
   | updClaim c =>
     simp only [exec]
     split
@@ -87,12 +95,12 @@ theorem ok_ret {P0 : Name → Prop} (a : Res) (s : St) : Ok P0 (.ret a) s := tri
 safe for every reply consistent with `RF` in every later state -/
 theorem ok_call {P0 : Name → Prop} {r : Req} {k : Resp → P} {s : St}
     (hG : ∀ s', Fut s s' → Inv P0 s' → G s' r)
-    (hk : ∀ s'' resp, Fut s s'' → RF s'' r resp → Ok P0 (k resp) s'') : Ok P0 (.call r k) s := by
+    (hk : ∀ s'' resp, Fut s s'' → Inv P0 s'' → RF s'' r resp → Ok P0 (k resp) s'') : Ok P0 (.call r k) s := by
   intro s' hf hi
   have g := hG s' hf hi
-  obtain ⟨_, hfe⟩ := exec_inv_fut hi r g
-  exact ⟨g, hk _ _ (hf.trans hfe) (rf_exec hi r), fun o => hk _ _ hf (rf_err s' o r),
-    fun o => hk _ _ (hf.trans hfe) (rf_err _ o r)⟩
+  obtain ⟨hie, hfe⟩ := exec_inv_fut hi r g
+  exact ⟨g, hk _ _ (hf.trans hfe) hie (rf_exec hi r), fun o => hk _ _ hf hi (rf_err s' o r),
+    fun o => hk _ _ (hf.trans hfe) hie (rf_err _ o r)⟩
 
 /-! ### the pieces of the reconciler -/
 
@@ -101,7 +109,7 @@ variable {P0 : Name → Prop}
 theorem ok_statusThen (cm : Claim) (r : Res) (s : St) : Ok P0 (statusThen cm r) s := by
   unfold statusThen
   refine ok_call (fun _ _ _ => trivial) ?_
-  intro s'' resp _ _
+  intro s'' resp _ hiq _
   cases resp <;> exact ok_ret _ _
 
 theorem ok_failWith (cm : Claim) (e : Err) (s : St) : Ok P0 (failWith cm e) s := by
@@ -109,10 +117,10 @@ theorem ok_failWith (cm : Claim) (e : Err) (s : St) : Ok P0 (failWith cm e) s :=
 
 theorem ok_finish (cm : Claim) (s : St) : Ok P0 (finish cm) s := ok_statusThen _ _ _
 
-theorem ok_genName (s0 : St) (t : Nat) (cands : List Name) (k : Option Name → P)
+theorem ok_genName (xpick : Nat → Option (List (Option XR) → Option (Option XR))) (s0 : St) (t : Nat) (j : Nat) (cands : List Name) (k : Option Name → P)
     (hsome : ∀ n s, Fut s0 s → ¬ foreignAt s n → Ok P0 (k (some n)) s) (hnone : ∀ s, Ok P0 (k none) s)
-    (s : St) (hf : Fut s0 s) : Ok P0 (genName t cands k) s := by
-  induction t generalizing cands s with
+    (s : St) (hf : Fut s0 s) : Ok P0 (genName xpick t j cands k) s := by
+  induction t generalizing j cands s with
   | zero => unfold genName; exact hnone s
   | succ t ih =>
     cases cands with
@@ -120,17 +128,15 @@ theorem ok_genName (s0 : St) (t : Nat) (cands : List Name) (k : Option Name → 
     | cons c cs =>
       unfold genName
       refine ok_call (fun _ _ _ => trivial) ?_
-      intro s'' resp hf'' hrf
+      intro s'' resp hf'' hi'' hrf
       cases resp with
       | claim c' => exact hnone _
       | ok => exact hnone _
-      | xr x => exact ih cs _ (hf.trans hf'')
+      | xr x => exact ih _ cs _ (hf.trans hf'')
       | err e =>
         cases e with
         | notFound =>
-          refine hsome c s'' (hf.trans hf'') ?_
-          intro ⟨x, hx, _⟩
-          rw [hrf.1 rfl] at hx; cases hx
+          exact hsome c s'' (hf.trans hf'') (not_foreign_of_hist hi'' (hrf.1 rfl) (fun x h => by cases h))
         | conflict => exact hnone _
         | invalid => exact hnone _
         | «exists» => exact hnone _
@@ -152,7 +158,7 @@ theorem ok_ssaBind (cm : Claim) (n : Name) (s : St) (hcm : cm ∈ s.hist) (hnf :
     (href : cm.ref = none ∨ cm.ref = some n) : Ok P0 (ssaBind cm n) s := by
   unfold ssaBind
   refine ok_call (fun s' hf' _ => g_updClaim hcm hf' rfl (refExt_setRef href)) ?_
-  intro s2 resp hf2 hrf
+  intro s2 resp hf2 hi2 hrf
   cases resp with
   | xr x => exact ok_ret _ _
   | ok => exact ok_ret _ _
@@ -161,7 +167,7 @@ theorem ok_ssaBind (cm : Claim) (n : Name) (s : St) (hcm : cm ∈ s.hist) (hnf :
     obtain ⟨hcm1, href1⟩ := hrf cm1 rfl
     have hack : acked s2 n := ⟨cm1, hcm1, href1⟩
     refine ok_call (fun s' hf' _ => ⟨hf'.acked hack, hf'.notForeign n (hf2.notForeign n hnf)⟩) ?_
-    intro s3 resp _ _
+    intro s3 resp _ hi3 _
     cases resp with
     | claim c => exact ok_ret _ _
     | ok => exact ok_ret _ _
@@ -170,7 +176,7 @@ theorem ok_ssaBind (cm : Claim) (n : Name) (s : St) (hcm : cm ∈ s.hist) (hnf :
       dsimp only
       split
       · refine ok_call (fun _ _ _ => trivial) ?_
-        intro s4 resp _ _
+        intro s4 resp _ hi4 _
         cases resp with
         | claim c => exact ok_finish _ _
         | ok => exact ok_ret _ _
@@ -184,14 +190,14 @@ theorem ok_syncSSA (cfg : Cfg) (cm : Claim) (s : St) (hcm : cm ∈ s.hist)
   cases href : cm.ref with
   | some n => exact ok_ssaBind cm n s hcm (hnf n href) (Or.inr href)
   | none =>
-    refine ok_genName s 10 cfg.cands _ ?_ (fun s1 => ok_statusThen _ _ _) s (Fut.refl s)
+    refine ok_genName cfg.xpick s 10 2 cfg.cands _ ?_ (fun s1 => ok_statusThen _ _ _) s (Fut.refl s)
     intro n s1 hf1 hnf1
     exact ok_ssaBind cm n s1 (hf1.hist cm hcm) hnf1 (Or.inl href)
 
 theorem ok_csaPost (cm1 : Claim) (s : St) (_hcm1 : cm1 ∈ s.hist) : Ok P0 (csaPost cm1) s := by
   unfold csaPost
   refine ok_call (fun _ _ _ => trivial) ?_
-  intro s2 resp _ hrf
+  intro s2 resp _ hi2 hrf
   cases resp with
   | xr x => exact ok_ret _ _
   | ok => exact ok_ret _ _
@@ -199,19 +205,19 @@ theorem ok_csaPost (cm1 : Claim) (s : St) (_hcm1 : cm1 ∈ s.hist) : Ok P0 (csaP
   | claim cm2 =>
     have hcm2 := hrf cm2 rfl
     refine ok_call (fun s' hf' _ => g_updClaim hcm2 hf' rfl (refExt_refl _)) ?_
-    intro s3 resp _ _
+    intro s3 resp _ hi3 _
     cases resp with
     | xr x => exact ok_ret _ _
     | ok => exact ok_ret _ _
     | err e => exact ok_failWith _ _ _
     | claim cm3 => exact ok_finish _ _
 
-theorem ok_csaApply (xr : Option XR) (cm1 : Claim) (n : Name) (s : St) (hcm1 : cm1 ∈ s.hist)
-    (href : cm1.ref = some n) (hnf : ¬ foreignAt s n) : Ok P0 (csaApply xr cm1 n) s := by
+theorem ok_csaApply (cfg : Cfg) (xr : Option XR) (cm1 : Claim) (n : Name) (s : St) (hcm1 : cm1 ∈ s.hist)
+    (href : cm1.ref = some n) (hnf : ¬ foreignAt s n) : Ok P0 (csaApply cfg xr cm1 n) s := by
   have hack : acked s n := ⟨cm1, hcm1, href⟩
   unfold csaApply
   refine ok_call (fun _ _ _ => trivial) ?_
-  intro s2 resp hf2 _
+  intro s2 resp hf2 hi2 _
   cases resp with
   | claim c => exact ok_ret _ _
   | ok => exact ok_ret _ _
@@ -220,7 +226,7 @@ theorem ok_csaApply (xr : Option XR) (cm1 : Claim) (n : Name) (s : St) (hcm1 : c
     split
     · exact ok_csaPost _ _ (hf2.hist _ hcm1)
     · refine ok_call (fun s' hf' _ => ⟨(hf2.trans hf').acked hack, hf'.notForeign n (hf2.notForeign n hnf)⟩) ?_
-      intro s3 resp hf3 _
+      intro s3 resp hf3 hi3 _
       cases resp with
       | claim c => exact ok_ret _ _
       | ok => exact ok_ret _ _
@@ -230,7 +236,7 @@ theorem ok_csaApply (xr : Option XR) (cm1 : Claim) (n : Name) (s : St) (hcm1 : c
     cases e with
     | notFound =>
       refine ok_call (fun s' hf' _ => (hf2.trans hf').acked hack) ?_
-      intro s3 resp hf3 _
+      intro s3 resp hf3 hi3 _
       cases resp with
       | claim c => exact ok_ret _ _
       | ok => exact ok_ret _ _
@@ -241,34 +247,34 @@ theorem ok_csaApply (xr : Option XR) (cm1 : Claim) (n : Name) (s : St) (hcm1 : c
     | «exists» => exact ok_failWith _ _ _
     | other => exact ok_failWith _ _ _
 
-theorem ok_csaBindNew (xr : Option XR) (cm : Claim) (n : Name) (s : St) (hcm : cm ∈ s.hist)
-    (href : cm.ref = none) (hnf : ¬ foreignAt s n) : Ok P0 (csaBindNew xr cm n) s := by
+theorem ok_csaBindNew (cfg : Cfg) (xr : Option XR) (cm : Claim) (n : Name) (s : St) (hcm : cm ∈ s.hist)
+    (href : cm.ref = none) (hnf : ¬ foreignAt s n) : Ok P0 (csaBindNew cfg xr cm n) s := by
   unfold csaBindNew
   refine ok_call (fun s' hf' _ => g_updClaim hcm hf' rfl (refExt_setRef (Or.inl href))) ?_
-  intro s2 resp hf2 hrf
+  intro s2 resp hf2 hi2 hrf
   cases resp with
   | xr x => exact ok_ret _ _
   | ok => exact ok_ret _ _
   | err e => exact ok_failWith _ _ _
   | claim cm1 =>
     obtain ⟨hcm1, href1⟩ := hrf cm1 rfl
-    exact ok_csaApply xr cm1 n s2 hcm1 href1 (hf2.notForeign n hnf)
+    exact ok_csaApply cfg xr cm1 n s2 hcm1 href1 (hf2.notForeign n hnf)
 
 theorem ok_syncCSA (cfg : Cfg) (cm : Claim) (xr : Option XR) (s : St) (hcm : cm ∈ s.hist)
     (hnf : ∀ n, cm.ref = some n → ¬ foreignAt s n) : Ok P0 (syncCSA cfg cm xr) s := by
   unfold syncCSA
   cases href : cm.ref with
-  | some n => exact ok_csaApply xr cm n s hcm href (hnf n href)
+  | some n => exact ok_csaApply cfg xr cm n s hcm href (hnf n href)
   | none =>
-    refine ok_genName s 10 cfg.cands _ ?_ (fun s1 => ok_statusThen _ _ _) s (Fut.refl s)
+    refine ok_genName cfg.xpick s 10 2 cfg.cands _ ?_ (fun s1 => ok_statusThen _ _ _) s (Fut.refl s)
     intro n s1 hf1 hnf1
-    exact ok_csaBindNew xr cm n s1 (hf1.hist cm hcm) href hnf1
+    exact ok_csaBindNew cfg xr cm n s1 (hf1.hist cm hcm) href hnf1
 
 theorem ok_finalizeClaim (cm : Claim) (s : St) (hcm : cm ∈ s.hist) : Ok P0 (finalizeClaim cm) s := by
   unfold finalizeClaim
   split
   · refine ok_call (fun s' hf' _ => g_updClaim hcm hf' rfl (fun _ h => h)) ?_
-    intro s2 resp _ _
+    intro s2 resp _ hi2 _
     cases resp with
     | xr x => exact ok_ret _ _
     | ok => exact ok_ret _ _
@@ -287,7 +293,7 @@ theorem ok_deletePath (cm : Claim) (xr : Option (Name × XR)) (s : St) (hcm : cm
     split
     · exact ok_statusThen _ _ _
     · refine ok_call (fun s' hf' _ => hf'.notForeign n (hnf n x rfl)) ?_
-      intro s2 resp hf2 _
+      intro s2 resp hf2 hi2 _
       cases resp with
       | xr x => exact ok_ret _ _
       | claim c => exact ok_ret _ _
@@ -321,7 +327,7 @@ theorem ok_bindPath (cfg : Cfg) (cm : Claim) (xr : Option (Name × XR)) (s : St)
   split
   · exact ok_syncWith cfg cm xr s hcm hnf
   · refine ok_call (fun s' hf' _ => g_updClaim hcm hf' rfl (fun _ h => h)) ?_
-    intro s2 resp hf2 hrf
+    intro s2 resp hf2 hi2 hrf
     cases resp with
     | xr x => exact ok_ret _ _
     | ok => exact ok_ret _ _
@@ -355,7 +361,7 @@ theorem ok_afterCheck (cfg : Cfg) (cm : Claim) (xr : Option (Name × XR)) (s : S
       dsimp only
       have href : cm.ref = some n := hx n x rfl
       refine ok_call (fun s' hf' _ => hf'.notForeign n (hnf n href)) ?_
-      intro s2 resp hf2 _
+      intro s2 resp hf2 hi2 _
       have hnf2 : ∀ m, cm.ref = some m → ¬ foreignAt s2 m := fun m hm => hf2.notForeign m (hnf m hm)
       have hx2 : ∀ (y : XR) m z, some (n, y) = some (m, z) → cm.ref = some m := by
         intro y m z h; cases h; exact href
@@ -371,16 +377,16 @@ theorem ok_afterCheck (cfg : Cfg) (cm : Claim) (xr : Option (Name × XR)) (s : S
         | «exists» => exact ok_failWith _ _ _
         | other => exact ok_failWith _ _ _
 
-theorem ok_checked (cfg : Cfg) (cm : Claim) (xr : Option (Name × XR)) (s : St) (hcm : cm ∈ s.hist)
-    (hsome : ∀ n x, xr = some (n, x) → cm.ref = some n ∧ s.xrs n = some x)
-    (hnone : xr = none → ∀ n, cm.ref = some n → s.xrs n = none) : Ok P0 (checked cfg cm xr) s := by
+theorem ok_checked (cfg : Cfg) (cm : Claim) (xr : Option (Name × XR)) (s : St) (hi : Inv P0 s) (hcm : cm ∈ s.hist)
+    (hsome : ∀ n x, xr = some (n, x) → cm.ref = some n ∧ some x ∈ s.xhist n)
+    (hnone : xr = none → ∀ n, cm.ref = some n → none ∈ s.xhist n) : Ok P0 (checked cfg cm xr) s := by
   unfold checked
   cases xr with
   | none =>
     dsimp only
     refine ok_afterCheck cfg cm none s hcm ?_ (fun n x h => by cases h)
-    intro n hn ⟨x, hx, _⟩
-    rw [hnone rfl n hn] at hx; cases hx
+    intro n hn
+    exact not_foreign_of_hist hi (hnone rfl n hn) (fun x h => by cases h)
   | some p =>
     obtain ⟨n, x⟩ := p
     dsimp only
@@ -389,33 +395,35 @@ theorem ok_checked (cfg : Cfg) (cm : Claim) (xr : Option (Name × XR)) (s : St) 
     · exact ok_statusThen _ _ _
     · rename_i hne
       refine ok_afterCheck cfg cm _ s hcm ?_ (fun m y h => by cases h; exact href)
-      intro m hm ⟨y, hy, hc⟩
+      intro m hm
       rw [href] at hm; cases hm
-      rw [hxs] at hy; cases hy
+      refine not_foreign_of_hist hi hxs ?_
+      intro y hy hc
+      cases hy
       apply hne
       rw [hc]; rfl
 
-theorem ok_withClaim (cfg : Cfg) (cm : Claim) (s : St) (hcm : cm ∈ s.hist) : Ok P0 (withClaim cfg cm) s := by
+theorem ok_withClaim (cfg : Cfg) (cm : Claim) (s : St) (hi : Inv P0 s) (hcm : cm ∈ s.hist) : Ok P0 (withClaim cfg cm) s := by
   unfold withClaim
   cases href : cm.ref with
   | none =>
     dsimp only
-    exact ok_checked cfg cm none s hcm (fun n x h => by cases h) (fun _ n hn => by rw [href] at hn; cases hn)
+    exact ok_checked cfg cm none s hi hcm (fun n x h => by cases h) (fun _ n hn => by rw [href] at hn; cases hn)
   | some n =>
     dsimp only
     refine ok_call (fun _ _ _ => trivial) ?_
-    intro s2 resp hf2 hrf
+    intro s2 resp hf2 hi2 hrf
     cases resp with
     | claim c => exact ok_ret _ _
     | ok => exact ok_ret _ _
     | xr x =>
-      refine ok_checked cfg cm _ s2 (hf2.hist _ hcm) ?_ (fun h => by cases h)
+      refine ok_checked cfg cm _ s2 hi2 (hf2.hist _ hcm) ?_ (fun h => by cases h)
       intro m y h; cases h
       exact ⟨href, hrf.2 x rfl⟩
     | err e =>
       cases e with
       | notFound =>
-        refine ok_checked cfg cm none s2 (hf2.hist _ hcm) (fun m y h => by cases h) ?_
+        refine ok_checked cfg cm none s2 hi2 (hf2.hist _ hcm) (fun m y h => by cases h) ?_
         intro _ m hm
         rw [href] at hm; cases hm
         exact hrf.1 rfl
@@ -429,11 +437,11 @@ managed-fields oracle. -/
 theorem ok_reconcile (cfg : Cfg) (s : St) : Ok P0 (reconcile cfg) s := by
   unfold reconcile
   refine ok_call (fun _ _ _ => trivial) ?_
-  intro s2 resp _ hrf
+  intro s2 resp _ hi2 hrf
   cases resp with
   | xr x => exact ok_ret _ _
   | ok => exact ok_ret _ _
-  | claim cm => exact ok_withClaim cfg cm s2 (hrf cm rfl)
+  | claim cm => exact ok_withClaim cfg cm s2 hi2 (hrf cm rfl)
   | err e => cases e <;> exact ok_ret _ _
 
 /-! ### the interleaved system -/
